@@ -15,6 +15,7 @@ Widths: the workload runs in child processes with ROWS/COLUMNS set so that the t
 width fixed at import is 50, 78 and 108.
 """
 import re
+from collections import OrderedDict
 import sys
 import json
 import traceback
@@ -27,7 +28,7 @@ from ..monitors import EvalTracer
 
 glom = env.bind()
 import glom.core as gcore  # noqa: E402
-from glom import (T, Coalesce, Or, And, Switch, Match, Check, Val, Pipe, Spec, M, GlomError, Fill, Auto,  # noqa: E402
+from glom import (T, Path, Coalesce, Or, And, Switch, Match, Check, Val, Pipe, Spec, M, GlomError, Fill, Auto,  # noqa: E402
                   glom as G)
 
 META = {
@@ -175,6 +176,24 @@ class OkFn:
         return '<ok%d>' % self.tag
 
 
+class ConvFn:
+    """hands on an object that is EQUAL to its target but another object with another repr (dict <-> OrderedDict):
+    the next level received a different target although `new == old`"""
+    def __init__(self, tag):
+        self.tag = tag
+        self.__name__ = 'conv%d' % tag
+
+    def __call__(self, t):
+        if type(t) is dict:
+            return OrderedDict(t)
+        if type(t) is OrderedDict:
+            return dict(t)
+        return t
+
+    def __repr__(self):
+        return '<conv%d>' % self.tag
+
+
 class BoomFn:
     def __init__(self, tag):
         self.tag = tag
@@ -198,7 +217,7 @@ def make_target(style):
 
 
 FAIL_KINDS = ['missing-path', 'failing-T', 'raising-callable', 'match-type', 'check', 'exhausted-coalesce', 'missing-attr',
-              'exhausted-coalesce-skip']
+              'exhausted-coalesce-skip', 'list-segment']
 
 
 class SpecGen:
@@ -221,6 +240,9 @@ class SpecGen:
                 return 'a.zz%d.q' % n
             if k == 'failing-T':
                 return T['a']['zz%d' % n]
+            if k == 'list-segment':
+                # a Path whose failing segment is a list (unhashable as a key): e.g. Path(['a', 'b']) written for Path('a', 'b')
+                return Path('a', ['zz%d' % n])
             if k == 'missing-attr':
                 return T['a'].attr_zz
             if k == 'raising-callable':
@@ -239,6 +261,8 @@ class SpecGen:
             return Coalesce('zz%d' % n, T['yy%d' % n], ('a', 'xx%d' % n))
         # (ok steps hand the same target on, so that the evaluation reaches the planted failure)
         r = self.rng.random()
+        if r < 0.12:
+            return ConvFn(n)
         if r < 0.5:
             return OkFn(n)
         if r < 0.65:
@@ -267,7 +291,7 @@ class SpecGen:
         rng = self.rng
         if depth <= 0:
             return self.leaf()
-        c = rng.choice(['chain', 'chain', 'pipe', 'dict', 'list', 'coalesce', 'coalesce', 'or', 'switch', 'matchlist', 'leaf', 'recovered-then'])
+        c = rng.choice(['chain', 'chain', 'pipe', 'dict', 'list', 'coalesce', 'coalesce', 'or', 'switch', 'switch', 'matchlist', 'matchdict', 'leaf', 'recovered-then'])
         self.shape.append(c)
         if c == 'leaf':
             return self.leaf()
@@ -296,12 +320,22 @@ class SpecGen:
             if rng.random() < 0.5:
                 cases.append((self._gen(depth - 1), T))            # the planted failure may sit in a key spec
                 cases.append((T['a'], self._gen(depth - 1)))
-            else:
+            elif rng.random() < 0.5:
                 cases.append((OkFn(self.tag()), self._gen(depth - 1)))
+            else:
+                # the key is itself a branching spec that RECOVERS from failed alternatives; the failure sits in the value
+                key = rng.choice([Coalesce, Or])(*([self.failing_alt() for _ in range(rng.randint(1, 2))] + [T]))
+                cases.append((key, self._gen(depth - 1)))
             return Switch(cases)
         if c == 'matchlist':
             return Pipe(Val([TARGETS[self.style]]),
                         Match([Or(*([self.failing_alt() for _ in range(rng.randint(0, 1))] + [Auto(self._gen(depth - 1))]))]),
+                        Val(TARGETS[self.style]))
+        if c == 'matchdict':
+            # a Match-mode dict whose key pattern recovers from a rejected alternative; the failure sits in the value spec
+            n = self.tag()
+            return Pipe(Val({'a': TARGETS[self.style]}),
+                        Match({Or('nope%d' % n, M == 'nope%d' % self.tag(), str): Auto(self._gen(depth - 1))}),
                         Val(TARGETS[self.style]))
         if c == 'recovered-then':
             return (Coalesce(self.failing_alt(), self.failing_alt(), T), self._gen(depth - 1))
@@ -402,6 +436,14 @@ def check_message(col, msg, root, target, desc, key, width):
     want_last = exc_line(original)
     if last != want_last:
         return col.violation('C05/last-line-is-not-the-original-error', '%s: last line %r, original error %r' % (desc, last, want_last), wit)
+    if 'str() failed>' in last:
+        # (both sides agree because the original error itself cannot be rendered: there is no "message of the original error")
+        return col.violation('C05/original-error-has-no-renderable-message', '%s: last line %r\n%s' % (desc, last, msg), wit)
+    for ln in tokens:
+        if ln.kind == 'Spec' and re.match(r'^<\w+ instance at 0x[0-9a-f]+>$', ln.text) and any(
+                type(f.spec).__module__.startswith('glom.') and matches(ln.text, f.spec) for f in frames):
+            return col.violation('C05/spec-shown-as-repr-failure-placeholder', '%s: trace line %r stands for a spec of the library '
+                                 'whose repr() raised\n%s' % (desc, ln.raw, msg), wit)
     # every line of the trace was really evaluated
     for ln in tokens:
         if ln.kind == 'Spec' and not any(matches(ln.text, f.spec) for f in frames):
